@@ -178,7 +178,8 @@ def run_check(prop, tier, seed):
             if percode[code] > 3 or sum(1 for c in percode if percode[c] >= 1) > 12 and percode[code] > 1:
                 continue
             path = vf.write_replay_file(prop, code, evs, 'demand %s of the specification failed at %s' % (code, note))
-            vf.log('VIOLATION property=%s replay=%s   (demand %s at %s)' % (prop, path, code, note))
+            vf.log('VIOLATION property=%s replay=%s' % (prop, path))
+            vf.log('  (demand %s at %s)' % (code, note))
         if violations:
             vf.log('[%s] failed demands: %s' % (prop, ', '.join('%s x%d' % kv for kv in sorted(percode.items()))))
 
